@@ -30,6 +30,7 @@ var (
 	seed = flag.Int64("seed", 1, "")
 	n    = flag.Int("n", 12, "")
 	out  = flag.String("out", "", "")
+	long = flag.Int("long", 0, "number of long (T = 3 s) timer cases")
 )
 
 const slack = 100 * time.Millisecond // scheduling slack tolerated on top of one polling period (a loaded machine delays goroutines by tens of ms)
@@ -140,6 +141,91 @@ func timerCase(r *rand.Rand, o *hout.Out) {
 	o.EmitTimer(sb.String(), elMs, float64(P)+float64(slack)/float64(time.Millisecond))
 }
 
+// longTimerCase: T = 3 s (polled every 300 ms, far above scheduling noise), refreshes placed in the middle of a polling
+// period: the expiry is the first poll at or after last refresh + T, within the slack — a timer that decides on a
+// reading one poll old, or polls at another period, is off by 300 ms
+func longTimerCase(r *rand.Rand, o *hout.Out) {
+	const T, P = 3000, 300
+	var rs []int
+	for k, j := r.Intn(3), 0; k > 0; k-- {
+		j += 1 + r.Intn(4)
+		rs = append(rs, j*P+P/2)
+	}
+	tm, err := utils.NewTimer(T * time.Millisecond)
+	if err != nil {
+		panic(err)
+	}
+	start := time.Now()
+	done := make(chan time.Duration, 1)
+	go func() { tm.TakeTimeout(); done <- time.Since(start) }()
+	last := 0.0
+	for _, off := range rs {
+		time.Sleep(time.Until(start.Add(time.Duration(off) * time.Millisecond)))
+		tm.Refresh()
+		last = float64(time.Since(start)) / float64(time.Millisecond)
+	}
+	el := float64(<-done) / float64(time.Millisecond)
+	tm.Close()
+	mu.Lock()
+	defer mu.Unlock()
+	// first poll (multiples of P from the start) at or after last + T
+	want := float64(P) * float64(int((last+T+P-1)/P))
+	desc := fmt.Sprintf("long timer T=%d P=%d refreshes(ms)=%v", T, P, rs)
+	o.Count("timer.long")
+	o.Nontrivial("C08", desc)
+	o.Nontrivial("C09", desc)
+	o.Sample("C08", fmt.Sprintf("%s -> expired after %.1f ms, the model's poll is at %.0f", desc, el, want))
+	tol := float64(slack) / float64(time.Millisecond)
+	if d := (last + T) - float64(P)*float64(int((last+T)/P)); len(rs) > 0 && (d < 60 || d > P-60) {
+		o.Count("timer.long.discarded-refresh-too-close-to-a-poll")
+		return
+	}
+	if el < want-tol {
+		o.Fail("C08", "timer-expired-early", fmt.Sprintf("%s: expired after %.1f ms, the first poll at or after last refresh + T is at %.0f ms", desc, el, want))
+	}
+	if el > want+tol {
+		o.Fail("C08", "timer-expired-late", fmt.Sprintf("%s: expired after %.1f ms, the first poll at or after last refresh + T is at %.0f ms (+%v slack)", desc, el, want, slack))
+	}
+}
+
+// syncProbeCase (C09): total silence from the peer except that every TestRequest is answered at once, inside the
+// session's own Send call (syncHandler). A peer that answers every probe is alive: never disconnected, and probed
+// again after each further silent period.
+func syncProbeCase(r *rand.Rand, o *hout.Out) {
+	side := r.Intn(2)
+	var sh *syncHandler
+	sr := newSessWrapped(side, true, "35=A\x0149=P\x0156=M\x0134=1\x0152=20240101-00:00:00.000\x0198=0\x01108=1\x01",
+		func(h *simplefixgo.DefaultHandler) session.Handler { sh = &syncHandler{DefaultHandler: h}; return sh })
+	dur := 2*T9 + 2*P9 + 500*time.Millisecond
+	time.Sleep(time.Until(sr.t0.Add(dur)))
+	outs, disc := sr.snapshot()
+	stopped := sr.h.Context().Err() != nil
+	logged := sr.s.IsLogged()
+	sr.h.Stop()
+	mu.Lock()
+	defer mu.Unlock()
+	desc := fmt.Sprintf("side=%d every TestRequest answered inside Send", side)
+	var probes []time.Duration
+	for _, m := range outs {
+		if m.mt == "1" {
+			probes = append(probes, m.at)
+		}
+	}
+	o.Count("probe.sync")
+	o.Nontrivial("C09", desc)
+	o.Sample("C09", fmt.Sprintf("%s -> probes at %v, disconnect at %v", desc, probes, disc))
+	if disc != 0 || stopped {
+		o.Fail("C09", "answering-peer-disconnected", fmt.Sprintf("%s: disconnect event at %v (handler stopped=%v) although every TestRequest was answered at once; probes at %v", desc, disc, stopped, probes))
+		return
+	}
+	if len(probes) < 2 {
+		o.Fail("C09", "not-probed-again", fmt.Sprintf("%s: %d TestRequests in %v of silence (one per %v expected); probes at %v", desc, len(probes), dur, T9, probes))
+	}
+	if !logged {
+		o.Fail("C09", "answering-peer-left-unlogged", fmt.Sprintf("%s: IsLogged() = false at the end although every TestRequest was answered; probes at %v", desc, probes))
+	}
+}
+
 // ---- sessions at N = 1
 
 type sessRun struct {
@@ -162,12 +248,40 @@ func newSess(side int) *sessRun {
 }
 
 func newSessWith(side int, approve bool, logon string) *sessRun {
+	return newSessWrapped(side, approve, logon, nil)
+}
+
+// syncHandler: a session.Handler whose Send, for a TestRequest, returns only after the peer's answer has been
+// received and dispatched (a synchronous transport: the library's Handler interface allows it)
+type syncHandler struct {
+	*simplefixgo.DefaultHandler
+	answered int
+}
+
+func (h *syncHandler) Send(m simplefixgo.SendingMessage) error {
+	err := h.DefaultHandler.Send(m)
+	if err == nil && m.MsgType() == "1" {
+		raw, _ := m.ToBytes()
+		h.answered++
+		h.DefaultHandler.ServeIncoming(frame(fmt.Sprintf("35=0\x0149=P\x0156=M\x0134=%d\x0152=20240101-00:00:00.000\x01112=%s\x01", 1+h.answered, field(raw, "112"))))
+		time.Sleep(30 * time.Millisecond) // dispatched by the handler's Run loop meanwhile
+	}
+	return err
+}
+
+func newSessWrapped(side int, approve bool, logon string, wrap func(*simplefixgo.DefaultHandler) session.Handler) *sessRun {
 	store := memory.NewStorage()
 	sr := &sessRun{}
 	var err error
+	router := func() session.Handler {
+		if wrap != nil {
+			return wrap(sr.h)
+		}
+		return sr.h
+	}
 	if side == 0 {
 		sr.h = simplefixgo.NewAcceptorHandler(context.Background(), "35", 64)
-		sr.s, err = session.NewAcceptorSession(opts(), sr.h, &session.LogonSettings{LogonTimeout: time.Second, HeartBtLimits: &session.IntLimits{Min: 1, Max: 60}},
+		sr.s, err = session.NewAcceptorSession(opts(), router(), &session.LogonSettings{LogonTimeout: time.Second, HeartBtLimits: &session.IntLimits{Min: 1, Max: 60}},
 			func(*session.LogonSettings) error {
 				if approve {
 					return nil
@@ -176,7 +290,7 @@ func newSessWith(side int, approve bool, logon string) *sessRun {
 			}, store, store)
 	} else {
 		sr.h = simplefixgo.NewInitiatorHandler(context.Background(), "35", 64)
-		sr.s, err = session.NewInitiatorSession(sr.h, opts(), &session.LogonSettings{HeartBtInt: 1, EncryptMethod: "0", SenderCompID: "C", TargetCompID: "S"}, store, store)
+		sr.s, err = session.NewInitiatorSession(router(), opts(), &session.LogonSettings{HeartBtInt: 1, EncryptMethod: "0", SenderCompID: "C", TargetCompID: "S"}, store, store)
 	}
 	if err != nil {
 		panic(err)
@@ -552,8 +666,7 @@ func relogonCase(r *rand.Rand, o *hout.Out) {
 
 // C07: a refused Logon (callback refusal, disallowed encryption, interval out of range) and then time passing:
 // nothing but Logon / Logout / Reject may be sent, however long the connection stays open
-func preauthCase(r *rand.Rand, o *hout.Out) {
-	kind := r.Intn(3)
+func preauthCase(kind int, quiet bool, o *hout.Out) {
 	logon := "35=A\x0149=P\x0156=M\x0134=1\x0152=20240101-00:00:00.000\x0198=0\x01108=1\x01"
 	approve := true
 	switch kind {
@@ -565,9 +678,16 @@ func preauthCase(r *rand.Rand, o *hout.Out) {
 		logon = "35=A\x0149=P\x0156=M\x0134=1\x0152=20240101-00:00:00.000\x0198=0\x01108=99\x01"
 	}
 	sr := newSessWith(0, approve, logon)
-	time.Sleep(1300 * time.Millisecond)
-	sr.h.ServeIncoming(frame("35=1\x0149=P\x0156=M\x0134=2\x0152=20240101-00:00:00.000\x01112=x\x01"))
-	time.Sleep(1200 * time.Millisecond)
+	// quiet: total silence for longer than the probe timer would need (N + tolerance = 2 s, polled every 0.2 s), then a
+	// Heartbeat: a session that wrongly armed its timers is then probing, and any inbound message makes it "logged on"
+	if quiet {
+		time.Sleep(2500 * time.Millisecond)
+		sr.h.ServeIncoming(frame("35=0\x0149=P\x0156=M\x0134=2\x0152=20240101-00:00:00.000\x01"))
+	} else {
+		time.Sleep(1300 * time.Millisecond)
+		sr.h.ServeIncoming(frame("35=1\x0149=P\x0156=M\x0134=2\x0152=20240101-00:00:00.000\x01112=x\x01"))
+		time.Sleep(1200 * time.Millisecond)
+	}
 	sr.h.ServeIncoming(frame("35=2\x0149=P\x0156=M\x0134=3\x0152=20240101-00:00:00.000\x017=1\x0116=0\x01"))
 	time.Sleep(100 * time.Millisecond)
 	outs, _ := sr.snapshot()
@@ -575,7 +695,7 @@ func preauthCase(r *rand.Rand, o *hout.Out) {
 	sr.h.Stop()
 	mu.Lock()
 	defer mu.Unlock()
-	desc := fmt.Sprintf("refused logon kind=%d", kind)
+	desc := fmt.Sprintf("refused logon kind=%d quiet=%v", kind, quiet)
 	o.Nontrivial("C07", desc)
 	o.Nontrivial("C06", desc)
 	for _, m := range outs {
@@ -599,11 +719,27 @@ func main() {
 	o := hout.New(*out)
 	defer o.Close()
 	var wg sync.WaitGroup
+	for i := 0; i < *long; i++ {
+		rl := rand.New(rand.NewSource(r.Int63()))
+		wg.Add(1)
+		go func() { defer wg.Done(); longTimerCase(rl, o) }()
+	}
 	for i := 0; i < *n; i++ {
 		rr := rand.New(rand.NewSource(r.Int63()))
+		rr6 := rand.New(rand.NewSource(r.Int63()))
+		wg.Add(1)
+		go func() { defer wg.Done(); syncProbeCase(rr6, o) }()
 		wg.Add(5)
-		rr4 := rand.New(rand.NewSource(r.Int63()))
-		go func() { defer wg.Done(); preauthCase(rr4, o) }()
+		go func() {
+			defer wg.Done()
+			// every kind of refusal, with and without the long silence
+			var w2 sync.WaitGroup
+			for c := 0; c < 6; c++ {
+				w2.Add(1)
+				go func(c int) { defer w2.Done(); preauthCase(c%3, c >= 3, o) }(c)
+			}
+			w2.Wait()
+		}()
 		rr5 := rand.New(rand.NewSource(r.Int63()))
 		go func() { defer wg.Done(); relogonCase(rr5, o) }()
 		go func() { defer wg.Done(); hbCase(rr, o) }()
